@@ -10,6 +10,7 @@
 (*             e's reader and the reader finished processing it             *)
 (*   End       Closed()/InternalError() of both multiplexers at the end     *)
 (*   Block/Hol/Backlog  timed scenarios of C25 (judged by MuxTime)          *)
+(*   Heart     heartbeat scenario (flow, then stalled carrier): counters    *)
 (*                                                                         *)
 (* Ret records of op setwd / setrd are SetWriteDeadline / SetReadDeadline   *)
 (* calls (k = 0 clear, 1 past, 2 far future, 3 near future that then        *)
@@ -38,7 +39,7 @@ NoWire(S) == [S EXCEPT !.wire = [e \in E |-> <<>>]]
 \* ax: case mode, pending write lengths, and the OBSERVED histories (ow: bytes offered to / accepted by Write,
 \* or: bytes returned by Read, oe: end-of-stream returned).  S.written/readOut/eof are the model's own prediction.
 InitAx == [mode |-> "none", pw |-> Zero, ow |-> EmptySeqs, or |-> EmptySeqs, oe |-> [e \in E |-> [s \in Ids |-> FALSE]]]
-InitStats == [drift |-> 0, wirebad |-> 0, pred |-> 0, cases |-> 0, dlv |-> 0]
+InitStats == [drift |-> 0, wirebad |-> 0, pred |-> 0, cases |-> 0, dlv |-> 0, hb |-> 0, hbspur |-> 0, hbundet |-> 0]
 \* the state the properties judge: protocol flags driven by the recorded calls, histories as observed
 Judged(S, a) == [S EXCEPT !.written = a.ow, !.readOut = a.or, !.eof = a.oe]
 
@@ -210,6 +211,10 @@ Next3(i, r) ==   \* <<new st, new ax, new stats, failures>>
          [stats EXCEPT !.drift = @ + B2N(Script /\ \E e \in E : st.perr[e] # Observed(st, r).perr[e])],
          EndFails(i, st, r)>>
   ELSE IF r.ev \in {"Block", "Hol", "Backlog"} THEN <<st, ax, stats, TimeFails(i, r)>>
+  ELSE IF r.ev = "Heart" THEN      \* heartbeat scenario: conformance counters only (MuxHeart states the design)
+       <<st, ax, [stats EXCEPT !.hb = @ + 1,
+                               !.hbspur = @ + B2N(r.flowClosed[1] \/ r.flowClosed[2]),
+                               !.hbundet = @ + B2N(~(r.detected[1] /\ r.detected[2]))], <<>>>>
   ELSE IF r.ev \in {"Skip", "Final", "Storm"} THEN <<st, ax, stats, <<>>>>
   ELSE <<st, ax, stats, <<Fail(i, "TraceAccepted")>>>>
 
@@ -222,7 +227,9 @@ Step == /\ l <= NRec
 Finish == /\ l = NRec + 1 /\ ~done
           /\ WriteResult(l - 1, fails, [stat_drift |-> stats.drift, stat_wire_bad |-> stats.wirebad,
                                         stat_predictions |-> stats.pred, stat_cases |-> stats.cases,
-                                        stat_deliveries |-> stats.dlv])
+                                        stat_deliveries |-> stats.dlv, stat_hb_cases |-> stats.hb,
+                                        stat_hb_spurious_timeouts |-> stats.hbspur,
+                                        stat_hb_stall_undetected |-> stats.hbundet])
           /\ done' = TRUE /\ UNCHANGED <<l, fails, st, ax, stats>>
 TNext == Step \/ Finish
 TSpec == TInit /\ [][TNext]_tvars
